@@ -219,6 +219,130 @@ fn linearization(rep: &Reporter, lang: &str, st: &Stats) -> (u64, u64) {
   (cases, equal_pairs)
 }
 
+/// In-pattern alternatives: the scan that follows an ellipsis tries the next pattern node on one
+/// sibling after the other; a sibling on which that attempt FAILS after having bound a variable is
+/// a failed alternative and must leave no trace.
+/// Patterns `h(PRE M, T)`: PRE in {none, `$A, `}, M in {`$$$`, `$$$R`}, T a one-variable pattern
+/// that binds `$A` before it can fail. Sources `h(c1, .., cn)`, every sequence of <= k arguments.
+/// Reference (atoms real, scan own): T is tried IN ISOLATION on each argument after PRE (fresh
+/// environment; coherence with PRE's `$A` decided by token-sequence equality). With i = the first
+/// argument on which it succeeds: none => the pattern must not match; i is the last argument =>
+/// the pattern must match, `$A` having the extent found in isolation and `$$$R` the arguments
+/// between; otherwise (a later argument follows the first success) nothing is asserted: the
+/// statement does not promise backtracking.
+fn ellipsis_scan(rep: &Reporter, lang: &str, st: &Stats, k: usize) -> (u64, u64, u64) {
+  use ast_grep_core::{MatchStrictness, Pattern};
+  let spec = spec_by_name(lang).unwrap();
+  let args_alpha: &[&str] = &["f(a, a)", "f(b, b)", "f(a, b)", "f(b, a)", "a + b", "b + b", "a", "b"];
+  let targets: &[&str] = &["f($A, b)", "f($A, $A)", "f($A, a)", "$A + b", "f(b, $A)"];
+  let (mut cases, mut must_match, mut unjudged) = (0u64, 0u64, 0u64);
+  let wrap = |call: &str| match lang {
+    "rust" => format!("fn m() {{ {call}; }}\n"),
+    "python" => format!("{call}\n"),
+    _ => format!("{call};\n"),
+  };
+  let strictness = [("cst", MatchStrictness::Cst), ("smart", MatchStrictness::Smart), ("ast", MatchStrictness::Ast), ("relaxed", MatchStrictness::Relaxed)];
+  for pre in [false, true] {
+    for named in [false, true] {
+      for t in targets {
+        let ptxt = format!("h({}{}, {t})", if pre { "$A, " } else { "" }, if named { "$$$R" } else { "$$$" });
+        for (sname, s) in &strictness {
+          let (Ok(p), Ok(pt)) = (Pattern::try_new(&ptxt, spec.lang), Pattern::try_new(t, spec.lang)) else { continue };
+          let (p, pt) = (p.with_strictness(s.clone()), pt.with_strictness(s.clone()));
+          for n_args in 1..=k {
+            for i in 0..args_alpha.len().pow(n_args as u32) {
+              let mut idx = i;
+              let mut a = vec![];
+              for _ in 0..n_args {
+                a.push(args_alpha[idx % args_alpha.len()]);
+                idx /= args_alpha.len();
+              }
+              let call = format!("h({})", a.join(", "));
+              let src = wrap(&call);
+              let g = spec.lang.ast_grep(&src);
+              let mut nodes = vec![];
+              all_nodes(&g.root(), &mut nodes);
+              let Some(call_node) = nodes.iter().find(|n| n.text() == call && children_vec(n).len() >= 2) else { continue };
+              let kids = children_vec(call_node);
+              let Some(arg_list) = kids.last() else { continue };
+              let cs: Vec<_> = children_vec(arg_list).into_iter().filter(|c| c.is_named()).collect();
+              if cs.len() != n_args {
+                continue;
+              }
+              cases += 1;
+              let start = if pre { 1 } else { 0 };
+              let mut pre_tokens = vec![];
+              if pre {
+                leaf_tokens(&cs[0], &mut pre_tokens);
+              }
+              let mut first: Option<(usize, (usize, usize))> = None;
+              for (j, c) in cs.iter().enumerate().skip(start) {
+                if let Some(nm) = pt.match_node(c.clone()) {
+                  let Some(av) = nm.get_env().get_match("A").cloned() else { continue };
+                  if pre {
+                    let mut tk = vec![];
+                    leaf_tokens(&av, &mut tk);
+                    if tk != pre_tokens {
+                      continue;
+                    }
+                  }
+                  first = Some((j, (av.range().start, av.range().end)));
+                  break;
+                }
+              }
+              let got = p.match_node(call_node.clone());
+              let case = |what: &str| json!({"lang": lang, "pattern": ptxt, "strictness": sname, "src": src, "scan_target": t, "what": what});
+              match first {
+                None => {
+                  if pre && cs.len() < 2 {
+                    // `$A, $$$, T` needs two arguments anyway
+                  }
+                  if got.is_some() {
+                    rep.violation("ellipsis-scan:matched-although-no-sibling-matches-the-next-pattern-node", case("no argument after PRE matches T in isolation"));
+                  }
+                }
+                Some((j, a_ext)) if j + 1 == cs.len() => {
+                  must_match += 1;
+                  match got {
+                    None => rep.violation(
+                      &format!("ellipsis-scan:rejected-after-a-failed-sibling-bound-a-variable{}", if pre { ":with-earlier-binding" } else { "" }),
+                      case("the first argument that matches T in isolation is the last one, so the pattern must match"),
+                    ),
+                    Some(nm) => {
+                      let env = nm.get_env();
+                      // which of several identical occurrences is kept is not fixed by the statement:
+                      // the reported node must be the one found in isolation or spell the same tokens
+                      let a_got = env.get_match("A").map(|n| (n.range().start, n.range().end));
+                      let mut tk = vec![];
+                      if let Some(n) = env.get_match("A") {
+                        leaf_tokens(n, &mut tk);
+                      }
+                      let ok = if pre { tk == pre_tokens } else { a_got == Some(a_ext) };
+                      if !ok {
+                        rep.violation("ellipsis-scan:binding-comes-from-a-failed-sibling", case(&format!("$A bound to {a_got:?} {tk:?}, isolated match gives {a_ext:?}")));
+                      }
+                      if named {
+                        let r: Vec<(usize, usize)> = env.get_multiple_matches("R").iter().filter(|n| n.is_named()).map(|n| (n.range().start, n.range().end)).collect();
+                        let want: Vec<(usize, usize)> = cs[start..j].iter().map(|n| (n.range().start, n.range().end)).collect();
+                        if r != want {
+                          rep.violation("ellipsis-scan:ellipsis-capture-differs", case(&format!("$$$R = {r:?}, expected {want:?}")));
+                        }
+                      }
+                    }
+                  }
+                }
+                Some(_) => unjudged += 1,
+              }
+            }
+          }
+        }
+      }
+    }
+  }
+  st.evals.fetch_add(cases, Ordering::Relaxed);
+  (cases, must_match, unjudged)
+}
+
 fn top_op(r: &R) -> String {
   fn sk(r: &R, d: usize) -> String {
     if d == 0 {
@@ -370,13 +494,15 @@ fn main() {
     }
     docs.par_iter().for_each(|(class, d)| run_doc(&rep, p.lang, d, &trees, &st, class));
     let (lin_cases, lin_equal) = linearization(&rep, p.lang, &st);
+    let (es_cases, es_must, es_unjudged) = ellipsis_scan(&rep, p.lang, &st, if args.thorough() { 4 } else { 3 });
     per_lang.push(json!({"lang": p.lang, "sources": srcs.len(), "max_siblings": k, "rule_documents": docs.len(),
+      "ellipsis_scan_cases": es_cases, "ellipsis_scan_cases_that_must_match": es_must, "ellipsis_scan_cases_not_judged_first_success_is_not_last": es_unjudged,
       "repeated_variable_linearisation_cases": lin_cases, "of_which_captures_spell_identical_tokens": lin_equal}));
   }
   let cov = json!({
     "evaluations": st.evals.load(Ordering::Relaxed),
     "distinct_nontrivial": st.nontrivial_docs.load(Ordering::Relaxed),
-    "rule": "rule documents = every operator (all/any/not, inside/has/precedes/follows x stopBy neighbor|end|rule) applied up to depth 2 over pattern atoms sharing $A/$B ($A, f($A), f($A,$A), $A+$B, f($A,$B), f($$$A), $A+$A) and kinds, plus matches-of-utility documents and constraints maps; sources = every sequence (all permutations with repetition) of <= k statements from a 6-statement alphabet as top-level statements, call arguments and block members, plus nesting chains; one evaluation = one (document, node); distinct_nontrivial = documents that matched some node, rejected some node and produced at least one non-empty binding",
+    "rule": "rule documents = every operator (all/any/not, inside/has/precedes/follows x stopBy neighbor|end|rule) applied up to depth 2 over pattern atoms sharing $A/$B ($A, f($A), f($A,$A), $A+$B, f($A,$B), f($$$A), $A+$A) and kinds, plus matches-of-utility documents and constraints maps, plus the in-pattern family h([$A,] $$$[R], T) (a sibling on which T fails after binding is a failed alternative); sources = every sequence (all permutations with repetition) of <= k statements from a 6-statement alphabet as top-level statements, call arguments and block members, plus nesting chains; one evaluation = one (document, node); distinct_nontrivial = documents that matched some node, rejected some node and produced at least one non-empty binding",
     "samples": samples.take(),
     "exhaustive": true,
     "matches": st.matches.load(Ordering::Relaxed),
